@@ -745,8 +745,40 @@ def r2_assign(ctx, rid, fn, field, must=(), desc=None, floor=1, sink=None):
 Ctx.r2_assign = r2_assign
 
 
-def cg_reach(ctx, roots, forbidden, stop=None, depth=12):
-    """Polymorphic call-graph reachability over workspace functions (static callee + resolved callee + closure args).
+def _impl_index(F):
+    ix = getattr(F, "_impl_ix", None)
+    if ix is None:
+        ix = collections.defaultdict(list)
+        for k, fn in F.fns.items():
+            tr = fn.get("impl_trait")
+            if tr and fn["kind"] == "AssocFn":
+                ix[norm(tr) + "::" + k.rsplit("::", 1)[-1]].append(k)
+        F._impl_ix = ix
+    return ix
+
+
+def callees_poly(F, t):
+    """Workspace functions a call terminator may invoke: resolved/static callee, closure arguments,
+    and for unresolved trait-method calls every workspace impl of that method (class hierarchy)."""
+    out = []
+    names = callee_names(t)
+    hit = False
+    for n in names:
+        if n in F.fns:
+            out.append(n)
+            hit = True
+    if not hit:
+        # class hierarchy only for traits defined in the workspace; std traits on generic receivers are not followed
+        ix = _impl_index(F)
+        for n in names:
+            if n.startswith("grin"):
+                out.extend(ix.get(n, []))
+    out.extend(c for c in t["ncallables"] if c in F.fns)
+    return out
+
+
+def cg_reach(ctx, roots, forbidden, stop=None, depth=14, edge_filter=None):
+    """Polymorphic call-graph reachability over workspace functions (static callee + resolved callee + closure args + CHA).
     Returns a witness chain [(fn, call loc)] to a call matching `forbidden`, or None."""
     F = ctx.F
     frx = pat(forbidden)
@@ -758,36 +790,48 @@ def cg_reach(ctx, roots, forbidden, stop=None, depth=12):
         q.append((r, 0))
     while q:
         k, dpt = q.popleft()
-        fn = F.fns[k]
         for bi, t in F.calls(k):
-            if call_matches(t, frx):
+            if call_matches(t, frx) and not (edge_filter and edge_filter(k, t)):
                 chain = [(k, loc(t))]
                 c = k
                 while seen[c] is not None:
                     c, l = seen[c]
                     chain.append((c, l))
+                ctx.stats["cg_nodes"] += len(seen)
                 return list(reversed(chain))
             if dpt >= depth:
                 continue
-            for n in callee_names(t) + t["ncallables"]:
-                if n in F.fns and n not in seen and not (srx and srx.search(n)):
+            for n in callees_poly(F, t):
+                if n not in seen and not (srx and srx.search(n)):
                     seen[n] = (k, loc(t))
                     q.append((n, dpt + 1))
     ctx.stats["cg_nodes"] += len(seen)
+    ctx.last_cg_nodes = len(seen)
     return None
 
 
-def no_reach_cg(ctx, rid, roots, forbidden, stop=None, desc=None):
+def no_reach_cg(ctx, rid, roots, forbidden, stop=None, desc=None, floor_nodes=0, edge_filter=None, depth=14):
     d = desc or "%s never reach %s" % ([short(r, 2) for r in roots], forbidden)
     keys = []
     for r in roots:
+        if r.startswith("re:"):
+            m = ctx.F.find(r[3:])
+            if not m:
+                return ctx.lost(rid, "R4", r, d, "no function matches " + r)
+            for k in m:
+                ctx.fn_seen.add(k)
+            keys.extend(m)
+            continue
         k = ctx.getfn(r)
         if k is None:
             return ctx.lost(rid, "R4", r, d, "function not found: " + r)
         keys.append(k)
-    w = cg_reach(ctx, keys, forbidden, stop)
+    ctx.last_cg_nodes = 0
+    w = cg_reach(ctx, keys, forbidden, stop, depth=depth, edge_filter=edge_filter)
     if w is None:
-        return ctx.record(rid, "R4", None, d, "hold", [fn_loc(ctx.F.fns[k]) for k in keys])
+        if ctx.last_cg_nodes < floor_nodes:
+            return ctx.lost(rid, "R4", None, d, "only %d functions reached, floor %d" % (ctx.last_cg_nodes, floor_nodes))
+        return ctx.record(rid, "R4", None, d + " [%d roots, %d functions reached]" % (len(keys), ctx.last_cg_nodes), "hold", [fn_loc(ctx.F.fns[k]) for k in keys][:8])
     return ctx.record(rid, "R4", w[0][0], d, "violation", [w[-1][1]], ["call chain:"] + ["%s @ %s" % x for x in w], key_detail="reach:%s" % (forbidden,))
 
 
